@@ -54,6 +54,9 @@ NonNeg(e) == {<<e.ti, "NonNeg", c>> : c \in {c \in 1..NC : \E r \in 1..Len(e.nx[
 Finite(e) == {<<e.ti, "Finite", k>> : k \in 1..Len(e.nonfinite)}
 NoOverdraw(e) == {<<e.ti, "NoOverdraw", c>> : c \in {c \in 1..NC : H.kind[c] \in {"normal","timed"} /\
       ~SLe(OutF(e,c), SAdd(Tot(e.st[c]), Tol(Tot(e.st[c]), K1e9, NTerms(c))))}}
+   \* the people present in a junction during a step are those who entered it in that step (plus anything it held): it cannot hand out more
+   \cup {<<e.ti, "NoOverdraw", c>> : c \in {c \in 1..NC : IsJ(c) /\
+      ~SLe(OutF(e,c), SAdd(SAdd(Tot(e.st[c]), InF(e,c)), Tol(SAdd(Tot(e.st[c]), InF(e,c)), K1e9, NTerms(c))))}}
 \* competing outflows of an ordinary compartment keep the ratios of the *documented requests* (C03's conversion of the
 \* parameter values, as a fraction num/den so that no division is needed):  flow1 * req2 = flow2 * req1
 Req(e, l) == LET p == H.lpar[l]  v == e.pv[p]  u == H.units[p]  T == H.tscale[p] IN
@@ -72,7 +75,7 @@ RatioOK(e, l1, l2) == LET r1 == Req(e, l1)  r2 == Req(e, l2)
                       IN RelClose(lhs, rhs, K1e8, UAdd(Slack3(f1, r2[1], r1[2]), Slack3(f2, r1[1], r2[2])))
 Ratio(e) == {<<e.ti, "Ratio", c>> : c \in {c \in 1..NC : H.kind[c] = "normal" /\
       \E l1, l2 \in {l \in Outl(c) : H.lpar[l] > 0} : l1 < l2 /\ ~RatioOK(e, l1, l2)}}
-NegZero(e) == {<<e.ti, "NegZero", l>> : l \in {l \in 1..NL : H.lpar[l] > 0 /\ ~H.lflush[l] /\ ~IsJ(H.lsrc[l]) /\ e.pv[H.lpar[l]].s < 0 /\ Tot(e.fl[l]).s # 0}}
+NegZero(e) == {<<e.ti, "NegZero", l>> : l \in {l \in 1..NL : H.lpar[l] > 0 /\ ~H.lflush[l] /\ e.pv[H.lpar[l]].s < 0 /\ Tot(e.fl[l]).s # 0}}
 
 \* ---------------------------------------------------------------------------------------------- C03
 \* documented unit conversion in multiplied-out form (no division): e.ca[l] is the per-step fraction (or amount)
@@ -84,7 +87,10 @@ ConvOK(e, l) == LET p == H.lpar[l]  v == e.pv[p]  u == H.units[p]  T == H.tscale
    ELSE IF u = "number" THEN
         IF H.kind[H.lsrc[l]] = "source" THEN RelClose(SMul(ca, T), SMul(v, H.dt), K1e8, PSlack(SAdd(ca, v), SAdd(T, H.dt)))
         ELSE LET ls == ParLinks(p)  pop == BSum(ls, [k \in ls |-> Tot(e.st[H.lsrc[k]])]) IN
-             IF pop.s = 0 THEN ca.s = 0
+             \* a source population below 2^-30 people (< the property's absolute tolerance of 1e-9; observations are quantised to 2^-60, so a
+             \* relative check at 1e-8 is meaningless there and a residue like 1e-31 is recorded as 0) is not judged here: the flow it
+             \* produces is still judged by ResolveRel / NoOverdraw / NonNeg
+             IF pop.s = 0 \/ SLt(pop, [s |-> 1, m |-> <<0, 0, 1>>]) THEN TRUE
              ELSE RelClose(SMul(SRescale(SMul(ca, pop)), T), SMul(v, H.dt), K1e8, PSlack(SAdd(SAdd(ca, pop), v), SAdd(T, H.dt)))
    ELSE TRUE
 ConvertRel(e) == {<<e.ti, "ConvertRel", l>> : l \in {l \in 1..NL : H.lpar[l] > 0 /\ ~H.lflush[l] /\ ~IsJ(H.lsrc[l]) /\ ~ConvOK(e, l)}}
@@ -100,7 +106,7 @@ ResolveRel(e) == {<<e.ti, "ResolveRel", l>> : l \in {l \in 1..NL : ~H.lflush[l] 
 \* ---------------------------------------------------------------------------------------------- C04
 JEmpty(e) == {<<e.ti, "JEmpty", c>> : c \in {c \in 1..NC : IsJ(c) /\ (Tot(e.nx[c]).s # 0 \/ Tot(e.st[c]).s # 0)}}
 JSplitOK(e, j) == LET outs == Outl(j)
-                      fr == [l \in outs |-> IF H.lpar[l] = 0 THEN SZero ELSE e.pv[H.lpar[l]]]
+                      fr == [l \in outs |-> IF H.lpar[l] = 0 THEN SZero ELSE SMax(SZero, e.pv[H.lpar[l]])]      \* a negative proportion moves nobody
                       tot == BSum(outs, fr)
                       inflow == InF(e, j)
                   IN \A l \in outs :
